@@ -69,6 +69,57 @@ theorem start_exists (S : GroupSpec G) {P : Params G} (hP : ValidParams S P) (si
   obtain ⟨e, -, -, -, h⟩ := start_ok S hP side pw idA idB ent hr
   exact ⟨_, _, h, rfl⟩
 
+
+/-! ### C06 helpers -/
+
+/-- a key is only ever returned for an unfinished session and a message that starts with the peer's
+side byte (no hypothesis on the record) -/
+theorem finish_ok_peer_byte (i : Inst G) {msg k : Bytes} (h : (i.finish msg).2 = .ok k) :
+    i.finished = false ∧ msg.take 1 = peerByte i.side ∧
+      ∃ body, msg = peerByte i.side ++ body ∧ extractMessage i.side msg = .ok body := by
+  cases hf : i.finished with
+  | true => rw [finish_twice i hf] at h; cases h
+  | false =>
+    by_cases hp : msg.take 1 = peerByte i.side
+    · have hm : msg = peerByte i.side ++ msg.drop 1 := by
+        rw [← hp]; exact (List.take_append_drop 1 msg).symm
+      refine ⟨rfl, hp, msg.drop 1, hm, ?_⟩
+      conv_lhs => rw [hm]
+      exact extractMessage_peer _ _
+    · obtain ⟨err, he, -⟩ := finish_side i hf hp
+      rw [he] at h; cases h
+
+/-- a session returned by `from_serialized` under valid parameters refuses its own (recomputed)
+outbound element under every label -/
+theorem own_message_refused_restored (S : GroupSpec G) {P : Params G} (hP : ValidParams S P)
+    {side : Side} {data : Bytes} {i' : Inst G} (hr : fromSerialized side data P = .ok i') :
+    ∃ ob, i'.outbound = some ob ∧ ∀ (c : Nat) (k : Bytes), (i'.finish (c :: ob)).2 ≠ .ok k := by
+  obtain ⟨-, hpar, -, hf, -, -, -, x, ob, -, hob, hof⟩ := fromSerialized_fields hr
+  obtain ⟨e, v, -, he⟩ := outboundFor_spec S i' (hpar ▸ hP) x
+  rw [hof] at he
+  injection he with he
+  have hb : IsBytes ob := he ▸ (S.enc_len e v).2
+  refine ⟨ob, hob, fun c k hk => ?_⟩
+  by_cases hp : (c :: ob).take 1 = peerByte i'.side
+  · have hx : extractMessage i'.side (c :: ob) = .ok ob := by
+      have : c :: ob = peerByte i'.side ++ ob := by rw [← hp]; rfl
+      rw [this]; exact extractMessage_peer _ _
+    exact (no_reflection_bytes S i' hf hob hb hx).2 k hk
+  · obtain ⟨err, he', -⟩ := finish_side i' hf hp
+    rw [he'] at hk; cases hk
+
+/-- the message a session sent is refused by every session restored from it -/
+theorem own_start_message_refused_restored (S : GroupSpec G) {P : Params G} (hP : ValidParams S P)
+    {side : Side} {pw idA idB : Bytes} (hpw : IsBytes pw) (hidA : IsBytes idA) (hidB : IsBytes idB)
+    {ent : Entropy} {a a' : Inst G} {m : Bytes}
+    (h : (Inst.new side pw idA idB P ent).start = (a, .ok m)) (hr : RestoredFrom a a') :
+    ∀ k, (a'.finish m).2 ≠ .ok k := by
+  obtain ⟨x, ob, -, rd, -, pa, ia, ja, -⟩ := start_ready S hP h
+  obtain ⟨-, f, -⟩ := hr.finish_eq S rd (ia ▸ hidA) (ja ▸ hidB) (pa ▸ hpw)
+  intro k
+  rw [f]
+  exact own_start_message_refused S hP h k
+
 /-! ### the toy group `IntegerGroup(23, 11, 2)` -/
 
 def toyP : IntGroupParams := ⟨23, 11, 2⟩
